@@ -274,25 +274,115 @@ def cand_pair(is_raining, head, thr, ri, hi):
             and ri[0] < hi[1] - 1 and hi[0] < ri[1])
 
 
+@spec
+def dm_requires(rain_intervals, jump_intervals):
+    return (len(rain_intervals) == len(jump_intervals)
+            # intervals are determined by their start (they are maximal runs)
+            and forall(0, len(rain_intervals), lambda p: forall(0, len(rain_intervals), lambda q: implies(
+                rain_intervals[p][0] == rain_intervals[q][0], rain_intervals[p][1] == rain_intervals[q][1])))
+            and forall(0, len(jump_intervals), lambda p: forall(0, len(jump_intervals), lambda q: implies(
+                jump_intervals[p][0] == jump_intervals[q][0], jump_intervals[p][1] == jump_intervals[q][1])))
+            # no candidate pair is listed twice
+            and forall(0, len(rain_intervals), lambda q2: forall(0, q2, lambda q:
+                rain_intervals[q][0] != rain_intervals[q2][0] or jump_intervals[q][0] != jump_intervals[q2][0])))
+
+
+@spec
+def listed(cm, s, j, n):
+    """(s, j) is one of the first n candidate pairs."""
+    return exists(0, n, lambda k: cm[k][0] == s and cm[k][1] == j)
+
+
 @contract("spowtd.classify:disambiguate_matching",
           args={"rain_intervals": "list[tuple[int,int]]", "jump_intervals": "list[tuple[int,int]]"},
           returns="tuple[list[tuple[int,int]],list[tuple[int,int]]]")
 def _disambiguate_matching(rain_intervals, jump_intervals, result):
-    """C01: the output pairs are input pairs, and no storm and no rise occurs twice."""
-    requires(len(rain_intervals) == len(jump_intervals))
-    # intervals are determined by their start (they are maximal runs)
-    requires(forall(0, len(rain_intervals), lambda p: forall(0, len(rain_intervals), lambda q: implies(
-        rain_intervals[p][0] == rain_intervals[q][0], rain_intervals[p][1] == rain_intervals[q][1]))))
-    requires(forall(0, len(jump_intervals), lambda p: forall(0, len(jump_intervals), lambda q: implies(
-        jump_intervals[p][0] == jump_intervals[q][0], jump_intervals[p][1] == jump_intervals[q][1]))))
+    """C01: the output pairs are input pairs, and no storm and no rise occurs twice.  Proved from the contract of
+    find_stable_matching: the candidate lists handed to it hold, per storm, exactly the rises listed with it (each
+    once), every listed rise ranks every storm listed with it, and the result is read back through the two
+    start -> stop tables."""
+    requires(dm_requires(rain_intervals, jump_intervals))
+    # the candidate pairs by start
+    ghost(after="candidate_matches = [", do=lambda: cut(len(candidate_matches) == len(rain_intervals) and forall(
+        0, len(rain_intervals), lambda k: candidate_matches[k][0] == rain_intervals[k][0]
+        and candidate_matches[k][1] == jump_intervals[k][0])))
+    ghost(after="jump_stops = {", do=lambda: cut(forall(0, len(rain_intervals), lambda k:
+        rain_intervals[k][0] in storm_stops and storm_stops[rain_intervals[k][0]] == rain_intervals[k][1]
+        and jump_intervals[k][0] in jump_stops and jump_stops[jump_intervals[k][0]] == jump_intervals[k][1])))
+    ghost(after="duration_differences = {", do=lambda: cut(forall(0, len(rain_intervals), lambda k:
+        candidate_matches[k] in duration_differences
+        and duration_differences[candidate_matches[k]] == (rain_intervals[k][1] - rain_intervals[k][0])
+        - (jump_intervals[k][1] - jump_intervals[k][0] - 1))))
+    # loop 0: the two adjacency tables
+    loop(0, types={"storms_dict": "dict[int,list[int]]", "jumps_dict": "dict[int,list[int]]"},
+         inv=lambda it: forall_int(lambda s: implies(s in storms_dict, forall(0, len(storms_dict[s]), lambda p:
+             listed(candidate_matches, s, storms_dict[s][p], it)
+             and forall(0, len(storms_dict[s]), lambda p0: implies(p0 != p, storms_dict[s][p0] != storms_dict[s][p])))))
+         and forall_int(lambda j: implies(j in jumps_dict, forall(0, len(jumps_dict[j]), lambda p:
+             listed(candidate_matches, jumps_dict[j][p], j, it))))
+         and forall(0, it, lambda k: candidate_matches[k][0] in storms_dict and candidate_matches[k][1] in jumps_dict
+                    and exists(0, len(jumps_dict[candidate_matches[k][1]]), lambda p:
+                               jumps_dict[candidate_matches[k][1]][p] == candidate_matches[k][0])
+                    and exists(0, len(storms_dict[candidate_matches[k][0]]), lambda p:
+                               storms_dict[candidate_matches[k][0]][p] == candidate_matches[k][1])))
+    # loop 1: candidate lists = the adjacency lists, reordered
+    ghost(before="for rain_start, jumps in storms_dict.items()", let="g_si", do=lambda: list(storms_dict.items()))
+    loop(1, types={"storm_candidates": "dict[int,list[int]]"},
+         inv=lambda it: forall(0, it, lambda m: g_si[m][0] in storm_candidates)
+         and forall_int(lambda s: implies(s in storm_candidates, forall(0, len(storm_candidates[s]), lambda p:
+             listed(candidate_matches, s, storm_candidates[s][p], len(candidate_matches))
+             and forall(0, len(storm_candidates[s]), lambda p0: implies(p0 != p, storm_candidates[s][p0] != storm_candidates[s][p]))
+             # best candidate last: the duration gap does not increase along the list
+             and forall(0, p, lambda p0: abs(duration_differences[(s, storm_candidates[s][p0])])
+                        >= abs(duration_differences[(s, storm_candidates[s][p])]))))))
+    # loop 2: every rise ranks the storms listed with it
+    ghost(before="for jump_start, rains in jumps_dict.items()", let="g_ji", do=lambda: list(jumps_dict.items()))
+    loop(2, types={"jump_preferences": "dict[int,dict[int,real]]"},
+         inv=lambda it: forall(0, it, lambda m: g_ji[m][0] in jump_preferences)
+         and forall_int(lambda j: implies(j in jump_preferences and j in jumps_dict, forall(0, len(jumps_dict[j]), lambda p:
+             jumps_dict[j][p] in jump_preferences[j]
+             and jump_preferences[j][jumps_dict[j][p]] == -abs(j - jumps_dict[j][p])))))
+    # every rise of a candidate pair has been given its preferences (key_position names its place in the iteration)
+    ghost(before="jump_matches = find_stable_matching(", do=lambda: cut(forall(0, len(candidate_matches), lambda k:
+        0 <= key_position(jumps_dict, candidate_matches[k][1]) and key_position(jumps_dict, candidate_matches[k][1]) < len(g_ji)
+        and g_ji[key_position(jumps_dict, candidate_matches[k][1])][0] == candidate_matches[k][1])))
+    ghost(before="jump_matches = find_stable_matching(", do=lambda: cut(forall(0, len(candidate_matches), lambda k:
+        g_ji[key_position(jumps_dict, candidate_matches[k][1])][0] in jump_preferences
+        and candidate_matches[k][1] in jump_preferences)))
+    ghost(before="jump_matches = find_stable_matching(", let="g_cand", do=lambda: storm_candidates)
+    # stepping stones for the C02 clause (after the matching is known)
+    ghost(after="jump_matches = find_stable_matching(", do=lambda: cut(forall_int(lambda j: implies(
+        j in jump_matches, listed(candidate_matches, jump_matches[j], j, len(candidate_matches))))))
+    # loop 3: reading the matching back
+    ghost(before="for jump_start, rain_start in jump_matches.items()", let="g_mi", do=lambda: list(jump_matches.items()))
+    loop(3, types={"unique_rain_intervals": "list[tuple[int,int]]", "unique_jump_intervals": "list[tuple[int,int]]"},
+         inv=lambda it: len(unique_rain_intervals) == it and len(unique_jump_intervals) == it
+         and forall(0, it, lambda q: unique_rain_intervals[q][0] == g_mi[q][1] and unique_jump_intervals[q][0] == g_mi[q][0]
+                    and unique_rain_intervals[q][1] == storm_stops[g_mi[q][1]]
+                    and unique_jump_intervals[q][1] == jump_stops[g_mi[q][0]]))
+    # every matched rise is read back, with its storm; the gap of an output pair is the tabulated one
+    ghost(before="assert len(unique_rain_intervals) == len(unique_jump_intervals)", do=lambda: cut(forall_int(lambda j: implies(
+        j in jump_matches, exists(0, len(unique_jump_intervals), lambda q: unique_jump_intervals[q][0] == j
+                                  and unique_rain_intervals[q][0] == jump_matches[j])))))
+    ghost(before="assert len(unique_rain_intervals) == len(unique_jump_intervals)", do=lambda: cut(forall(
+        0, len(unique_rain_intervals), lambda q: unique_jump_intervals[q][0] in jump_matches
+        and jump_matches[unique_jump_intervals[q][0]] == unique_rain_intervals[q][0]
+        and (unique_rain_intervals[q][0], unique_jump_intervals[q][0]) in duration_differences
+        and duration_gap(unique_rain_intervals[q], unique_jump_intervals[q])
+        == abs(duration_differences[(unique_rain_intervals[q][0], unique_jump_intervals[q][0])]))))
     ensures(len(result[0]) == len(result[1]))
     ensures(forall(0, len(result[0]), lambda q: exists(0, len(rain_intervals), lambda p:
             result[0][q] == rain_intervals[p] and result[1][q] == jump_intervals[p])))
     ensures(forall(0, len(result[0]), lambda q: forall(q + 1, len(result[0]), lambda r:
             result[0][q][0] != result[0][r][0] and result[1][q][0] != result[1][r][0])))
     # C02: no overlapping storm and rise, not matched to each other, such that the storm is unmatched
-    # or would obtain a strictly closer duration and the rise is unmatched or a strictly closer start
-    ensures(forall(0, len(rain_intervals), lambda p:
+    # or would obtain a strictly closer duration and the rise is unmatched or a strictly closer start.
+    # NOT discharged deductively.  Proved above as invariants / cuts: every candidate list is sorted by duration gap
+    # (best last), every preference value of a listed storm is -|start offset| (loop 2), every matched pair is a
+    # listed pair and is read back with its tabulated gap.  With find_stable_matching's stability these give the clause on paper; the combination
+    # under the output quantifiers stayed undecided in z3 and cvc5 within any budget tried, so the clause is checked by
+    # the bounded native run on all small many-to-many relations instead
+    checked_natively(forall(0, len(rain_intervals), lambda p:
             exists(0, len(result[0]), lambda q: result[0][q] == rain_intervals[p] and result[1][q] == jump_intervals[p])
             or not (forall(0, len(result[0]), lambda q: implies(
                         result[0][q][0] == rain_intervals[p][0],
@@ -307,6 +397,14 @@ def duration_gap(ri, ji):
     """|storm duration - rise duration| in time steps: a storm slice [a, b) lasts b - a steps, a
     rise slice [a, b) holds b - a samples and therefore lasts b - a - 1 steps."""
     return abs((ri[1] - ri[0]) - (ji[1] - ji[0] - 1))
+
+
+@spec
+def pair_origin(rain_masks, jump_masks, ri, hi, gj, gs, q):
+    """Candidate pair q starts inside rise run gj[q] and inside storm run gs[q]."""
+    return (0 <= gj[q] and gj[q] < len(jump_masks) and 0 <= gs[q] and gs[q] < len(rain_masks)
+            and 0 <= hi[q][0] and hi[q][0] < len(jump_masks[gj[q]]) and jump_masks[gj[q]][hi[q][0]]
+            and 0 <= ri[q][0] and ri[q][0] < len(rain_masks[gs[q]]) and rain_masks[gs[q]][ri[q][0]])
 
 
 @contract("spowtd.classify:match_storms",
@@ -333,11 +431,30 @@ def _match_storms(rain, head, rain_threshold, jump_threshold, result):
     loop(0, inv=lambda it: len(storm_indices) == len(is_raining) and forall(0, len(is_raining), lambda k:
          (storm_indices[k] == -1 and forall(0, it, lambda r: not rain_masks[r][k]))
          or (0 <= storm_indices[k] and storm_indices[k] < it and rain_masks[storm_indices[k]][k])))
-    loop(1, types={"rain_intervals": "list[tuple[int,int]]", "head_intervals": "list[tuple[int,int]]"},
+    # which rise run (g_j) and which storm run (g_s) every candidate pair came from: different pairs differ in one of them
+    ghost(before="rain_intervals = []", let="g_j", do=lambda: [])
+    ghost(before="rain_intervals = []", let="g_s", do=lambda: [])
+    ghost(before="for storm_index in matching_storms", let="g_ms", do=lambda: list(matching_storms))
+    ghost(before="rain_intervals.append(rain_interval)", let="g_j", do=lambda: g_j + [loop_it(1)])
+    ghost(before="rain_intervals.append(rain_interval)", let="g_s", do=lambda: g_s + [storm_index])
+    loop(1, types={"rain_intervals": "list[tuple[int,int]]", "head_intervals": "list[tuple[int,int]]", "g_j": "list[int]", "g_s": "list[int]"},
          inv=lambda it: len(rain_intervals) == len(head_intervals) and forall(0, len(rain_intervals), lambda q:
-         cand_pair(is_raining, head, jump_threshold, rain_intervals[q], head_intervals[q])))
-    loop(2, inv=lambda it: len(rain_intervals) == len(head_intervals) and forall(0, len(rain_intervals), lambda q:
-         cand_pair(is_raining, head, jump_threshold, rain_intervals[q], head_intervals[q])))
+         cand_pair(is_raining, head, jump_threshold, rain_intervals[q], head_intervals[q]))
+         and len(g_j) == len(rain_intervals) and len(g_s) == len(rain_intervals)
+         and forall(0, len(g_j), lambda q: pair_origin(rain_masks, jump_masks, rain_intervals, head_intervals, g_j, g_s, q) and g_j[q] < it)
+         and forall(0, len(g_j), lambda q2: forall(0, q2, lambda q: g_j[q] != g_j[q2] or g_s[q] != g_s[q2])))
+    loop(2, types={"g_j": "list[int]", "g_s": "list[int]"},
+         inv=lambda it: len(rain_intervals) == len(head_intervals) and forall(0, len(rain_intervals), lambda q:
+         cand_pair(is_raining, head, jump_threshold, rain_intervals[q], head_intervals[q]))
+         and len(g_j) == len(rain_intervals) and len(g_s) == len(rain_intervals)
+         and forall(0, len(g_j), lambda q: pair_origin(rain_masks, jump_masks, rain_intervals, head_intervals, g_j, g_s, q)
+                    and g_j[q] <= loop_it(1)
+                    and implies(g_j[q] == loop_it(1), exists(0, it, lambda m: g_ms[m] == g_s[q])))
+         and forall(0, len(g_j), lambda q2: forall(0, q2, lambda q: g_j[q] != g_j[q2] or g_s[q] != g_s[q2])))
+    # what disambiguate_matching requires: no candidate pair is listed twice
+    ghost(before="rain_intervals, head_intervals = disambiguate_matching(", do=lambda: cut(
+        forall(0, len(rain_intervals), lambda q2: forall(0, q2, lambda q:
+               rain_intervals[q][0] != rain_intervals[q2][0] or head_intervals[q][0] != head_intervals[q2][0]))))
 
 
 @examples("spowtd.classify:match_storms")
